@@ -527,6 +527,9 @@ func (cf *ContractFile) parseOne(path string) error {
 				if cl.Name == "" {
 					cl.Name = fmt.Sprintf("pre.%d", len(c.Requires)+1)
 				}
+				if cl.Free {
+					cf.Assumptions = append(cf.Assumptions, fmt.Sprintf("free requires on %s: %s", c.Func, cl.Src))
+				}
 				c.Requires = append(c.Requires, cl)
 			case "ensures":
 				cl, err := parseClause(rest, it.line)
